@@ -27,6 +27,7 @@ type inputString struct {
 	pointer int
 	eof     bool
 	length  int
+	offsets []int
 }
 
 func newInputString(s string) *inputString {
@@ -56,11 +57,15 @@ func (i *inputString) getCurrentAsByte() byte {
 		i.eof = true
 		return 0
 	}
-	var pos int
-	for j := 0; j < i.pointer; j++ {
-		pos += utf8.RuneLen(i.runes[j])
+	// Byte offset of every code point in s. An invalid byte is one code point (U+FFFD) but only one
+	// byte wide, so the offset cannot be derived from the width of the decoded runes.
+	if i.offsets == nil {
+		i.offsets = make([]int, 0, i.length)
+		for pos := range i.s {
+			i.offsets = append(i.offsets, pos)
+		}
 	}
-	return i.s[pos]
+	return i.s[i.offsets[i.pointer]]
 }
 
 func (i *inputString) rewindLast() {
